@@ -17,7 +17,15 @@
 //!   ismime <hex>              is_v1_mime_response                                         -> true|false
 //!   tcp <seg-hex>…            RibbitClient::query_raw with the response sent in these segments
 //!        -> ok:<hex>|err:<class>
+//!   dl <client> <t_ms> <path> <config|data|patch> <keyhex> <script>   CdnClient::download on the
+//!        client's own ProtocolCache against a fourth (CDN) mock server; script = steps for the
+//!        successive requests, comma separated: s<code>:<bodyhex> close mid:<bodyhex> stall refuse
+//!        -> reqs=<n> url=<requested path|-> res=<ok:hex|err:class> cache=<hit:hex|miss|err|->
+//!   corruptdl <path> <type> <keyhex>   (disk mode: overwrite the object's cache file)   -> ok|nofile
+//!   httperr <peer behaviour>  one request of the real TactClient; the reqwest::Error predicates
+//!        -> http t= c= r= b= d= class=<..> retry=<bool> | err:<class> retry=<bool> | ok:<seqn>:<rows>
 //! Behaviours b: doc:<id> mime:<id> bad s<code> s<code>ra close mid trunc stall refuse
+//!   r<status>:<bodyhex>:<g<seqn>.<rows>|m>   these very bytes (tag = the generator's label, oracle only)
 //! (`refuse` is fixed per group by the `down` mask: bit0 https, bit1 http, bit2 tcp).
 use cascette_protocol::mime_parser::is_v1_mime_response;
 use cascette_protocol::{CacheConfig, CdnClient, CdnConfig, CdnEndpoint, ClientConfig, ContentType, ProtocolError, RibbitClient, RibbitTactClient, TactClient};
@@ -1036,6 +1044,9 @@ fn oracle_group(lines: &[String], resps: &[String], mut fail: impl FnMut(&str, S
     let mut corrupted: BTreeSet<String> = BTreeSet::new();
     // when each client's own stored entry (if any) expires: (client, endpoint) -> instant
     let mut own_exp: BTreeMap<(usize, String), u64> = BTreeMap::new();
+    // CDN objects the property expects in the cache: (slot, cache key) -> (bytes, stored at, by)
+    let mut cdn_ref: BTreeMap<(usize, String), (Vec<u8>, u64, usize)> = BTreeMap::new();
+    let mut cdn_corrupted: BTreeSet<String> = BTreeSet::new();
     for (i, (line, resp)) in lines.iter().zip(resps).enumerate() {
         let toks: Vec<&str> = line.split(' ').collect();
         match toks[0] {
@@ -1044,6 +1055,150 @@ fn oracle_group(lines: &[String], resps: &[String], mut fail: impl FnMut(&str, S
                 refc.clear();
                 corrupted.clear();
                 own_exp.clear();
+                cdn_ref.clear();
+                cdn_corrupted.clear();
+            }
+            "corruptdl" => {
+                if resp == "ok" {
+                    if let Some(k) = unhex(toks[3]) { cdn_corrupted.insert(cdn_cache_key(toks[1], toks[2], &k)); }
+                }
+            }
+            "dl" if resp != "bad-op" => {
+                let Some(c) = cfg.as_ref() else { continue };
+                let ci: usize = toks[1].parse().unwrap();
+                let t: u64 = toks[2].parse().unwrap();
+                let key = unhex(toks[5]).unwrap();
+                let script = parse_script(toks[6]).unwrap();
+                let f: BTreeMap<&str, &str> = resp.split(' ').filter_map(|kv| kv.split_once('=')).collect();
+                let (reqs, url, res, cache) = (f["reqs"].parse::<usize>().unwrap_or(99), f["url"], f["res"], f["cache"]);
+                if key.len() < 2 {
+                    // a key too short for the two directory levels is refused before cache and network
+                    if reqs != 0 || res != "err:invalid-key" {
+                        fail("cdn-short-key-not-refused", format!("{line} -> {resp}"), i);
+                    }
+                    continue;
+                }
+                let ck = cdn_cache_key(toks[3], toks[4], &key);
+                let slot = if c.disk { 0 } else { ci };
+                let rk = (slot, ck.clone());
+                let cdn_ttl = c.ttl[1];
+                if cdn_corrupted.contains(&ck) {
+                    // the file was overwritten from outside: what comes back is not judged; resynchronise
+                    // (the junk stays in the file until a fetched object overwrites it)
+                    if reqs > 0 {
+                        cdn_corrupted.remove(&ck);
+                        match res.strip_prefix("ok:") {
+                            Some(h) => { cdn_ref.insert(rk, (unhex(h).unwrap_or_default(), t, ci)); }
+                            None => { cdn_ref.remove(&rk); }
+                        }
+                    } else {
+                        cdn_ref.remove(&rk);
+                    }
+                    continue;
+                }
+                let fresh = cdn_ref.get(&rk).filter(|e| t < e.1 + cdn_ttl).cloned();
+                if let Some((bytes, stored, by)) = fresh {
+                    // served from the cache, no traffic
+                    if reqs != 0 {
+                        if by == ci && t >= stored + c.ttl[2] {
+                            fail("cdn-object-ttl-is-config-ttl", format!("object stored at {stored} is fetched again before the CDN time-to-live ({cdn_ttl} ms) ended, at the config time-to-live ({} ms): {line} -> {resp}", c.ttl[2]), i);
+                        } else {
+                            fail("cdn-hit-with-traffic", format!("fresh cached object but the CDN was contacted: {line} -> {resp}"), i);
+                        }
+                        match res.strip_prefix("ok:") {
+                            Some(h) => { cdn_ref.insert(rk, (unhex(h).unwrap_or_default(), t, ci)); }
+                            None => { cdn_ref.remove(&rk); }
+                        }
+                    } else if res != format!("ok:{}", hex(&bytes)) {
+                        fail("cdn-hit-wrong-bytes", format!("want ok:{}: {line} -> {resp}", hex(&bytes)), i);
+                    }
+                    continue;
+                }
+                // not cached: the network must be used; at most 4 requests, stop at the first
+                // success or definitive failure
+                let stale = cdn_ref.get(&rk).cloned();
+                let mut want_reqs = 0usize;
+                let mut want: Option<Vec<u8>> = None;
+                for k in 0..4 {
+                    let st = &script[k.min(script.len() - 1)];
+                    if *st != CdnStep::Refuse { want_reqs += 1; }
+                    match st {
+                        CdnStep::Resp(code, body) if (200..300).contains(code) => { want = Some(body.clone()); break; }
+                        CdnStep::Resp(code, _) if *code == 429 || (500..600).contains(code) => {}
+                        CdnStep::Resp(..) => break,
+                        _ => {} // refused, dropped, stalled: transient
+                    }
+                }
+                let all_refused = script[0] == CdnStep::Refuse;
+                if reqs == 0 && !all_refused {
+                    if let (Some(h), Some((_, stored, by))) = (res.strip_prefix("ok:"), stale.as_ref()) {
+                        let _ = h;
+                        if c.disk && *by != ci {
+                            fail("cache-ttl-lost-new-client", format!("object stored by client {by} is served by client {ci} after its time-to-live ended, without traffic: {line} -> {resp}"), i);
+                        } else if t < stored + c.ttl[2] {
+                            fail("cdn-object-ttl-is-config-ttl", format!("object stored at {stored} is served without traffic after the CDN time-to-live ({cdn_ttl} ms) ended, until the config time-to-live ({} ms): {line} -> {resp}", c.ttl[2]), i);
+                        } else {
+                            fail("cdn-served-after-ttl", format!("{line} -> {resp}"), i);
+                        }
+                    } else {
+                        fail("cdn-no-traffic-without-cached-object", format!("{line} -> {resp}"), i);
+                    }
+                    continue;
+                }
+                if reqs != want_reqs {
+                    fail("cdn-request-count", format!("want {want_reqs} requests: {line} -> {resp}"), i);
+                }
+                if reqs > 0 {
+                    let want_url = format!("/{}", &ck[4..]);
+                    if url != want_url {
+                        fail("cdn-url", format!("want {want_url}: {line} -> {resp}"), i);
+                    }
+                }
+                match want {
+                    Some(body) => {
+                        let w = format!("ok:{}", hex(&body));
+                        if res != w {
+                            fail("cdn-wrong-bytes", format!("want {w}: {line} -> {resp}"), i);
+                        } else if cache != format!("hit:{}", hex(&body)) {
+                            fail("cdn-fetched-object-not-cached", format!("{line} -> {resp}"), i);
+                        }
+                        match res.strip_prefix("ok:") {
+                            Some(h) => { cdn_ref.insert(rk, (unhex(h).unwrap_or_default(), t, ci)); }
+                            None => { cdn_ref.remove(&rk); }
+                        }
+                    }
+                    None => {
+                        if res.starts_with("ok:") {
+                            fail("cdn-failed-fetch-returned", format!("every request failed or was answered non-2xx, yet bytes are returned: {line} -> {resp}"), i);
+                        }
+                        if cache != "miss" {
+                            fail("cdn-failure-cached", format!("a failed or non-2xx fetch is in the cache: {line} -> {resp}"), i);
+                        }
+                        match res.strip_prefix("ok:") {
+                            Some(h) => { cdn_ref.insert(rk, (unhex(h).unwrap_or_default(), t, ci)); }
+                            None => { cdn_ref.remove(&rk); }
+                        }
+                    }
+                }
+            }
+            "httperr" if resp != "bad-op" => {
+                // the property's reading: refused / dropped / stalled connections are transient,
+                // a redirect without end and an unusable URL are not; a good answer is an answer
+                let want = match toks[1] {
+                    "refuse" | "close" | "midhead" | "mid" | "garbage" | "stallhead" | "stallbody" | "badchunk" | "badgzip" => Some("retry=true"),
+                    "redirloop" | "redirnoloc" | "badurl" => Some("retry=false"),
+                    _ => None,
+                };
+                match want {
+                    Some(w) => {
+                        if !resp.ends_with(w) {
+                            fail("http-error-class", format!("want {w}: {line} -> {resp}"), i);
+                        }
+                    }
+                    None => {
+                        if resp != "ok:9:2" { fail("http-error-class", format!("want the document: {line} -> {resp}"), i); }
+                    }
+                }
             }
             "corrupt" => {
                 if resp == "ok" { corrupted.insert(toks[1].to_string()); }
@@ -1375,6 +1530,212 @@ fn gen_ttl_groups(rng: &mut Rng, n: usize) -> Vec<Vec<String>> {
     groups
 }
 
+// ---------------------------------------------------------------------------------------------
+// raw bodies: well-formed / malformed BY CONSTRUCTION (the tag travels on the request line for the
+// oracle; the model decides with its parser on the bytes alone)
+// ---------------------------------------------------------------------------------------------
+fn wrap_mime(body: &str, good_checksum: bool) -> Vec<u8> {
+    let before = format!(
+        "MIME-Version: 1.0\r\nContent-Type: multipart/alternative; boundary=\"RibbitBoundary\"\r\n\r\n--RibbitBoundary\r\nContent-Type: text/plain\r\nContent-Disposition: data\r\n\r\n{body}\r\n--RibbitBoundary--\r\n"
+    );
+    let mut sum = sha256(before.as_bytes());
+    if !good_checksum { sum[0] ^= 0x5a; }
+    format!("{before}Checksum: {}\r\n", hex::encode(sum)).into_bytes()
+}
+
+/// (body text, Some((seqn, rows)) if well-formed)
+fn raw_bodies(id: u32) -> Vec<(String, Option<(u32, u32)>)> {
+    let h = "Region!STRING:0|BuildId!DEC:4|Key!HEX:2";
+    vec![
+        // well-formed variants of the same table
+        (format!("{h}\n## seqn = {id}\nus|{id}|abcd\neu|{id}|0123\n"), Some((id, 2))),
+        (format!("{h}\r\n## seqn = {id}\r\nus|{id}|abcd\r\n"), Some((id, 1))),
+        (format!("{h}\n\n# a comment\n## seqn: {id}\nus|{id}|abcd\n\neu||\nkr|-5|\n"), Some((id, 3))),
+        (format!("region!string:0|buildid!dec:4|key!hex:2\n## seqn = {id}\nus|{id}|ABCD"), Some((id, 1))),
+        (format!("{h}\n## seqn = {id}\n"), Some((id, 0))),
+        (format!("{h}  \n## seqn = {id}\n  us|{id}|abcd  \n"), Some((id, 1))),
+        // malformed: every way the reader rejects a table
+        (String::new(), None),
+        ("\n\n".to_string(), None),
+        ("<html>moved</html>\n".to_string(), None),
+        (format!("Region|BuildId\nus|{id}\n"), None),
+        (format!("Region!STRONG:0|BuildId!DEC:4\nus|{id}\n"), None),
+        (format!("Region!STRING|BuildId!DEC:4\nus|{id}\n"), None),
+        (format!("Region!STRING:x|BuildId!DEC:4\nus|{id}\n"), None),
+        (format!("Region!STRING:0!y|BuildId!DEC:4\nus|{id}\n"), None),
+        (format!("{h}\n## seqn = {id}\nus|{id}\n"), None),
+        (format!("{h}\n## seqn = {id}\nus|{id}|abcd|extra\n"), None),
+        (format!("{h}\n## seqn = {id}\nus|x{id}|abcd\n"), None),
+        (format!("{h}\n## seqn = {id}\nus|{id}|abc\n"), None),
+        (format!("{h}\n## seqn = {id}\nus|{id}|abcg\n"), None),
+        (format!("{h}\n## seqn = abc\nus|{id}|abcd\n"), None),
+        (format!("{h}\n## seqn =\nus|{id}|abcd\n"), None),
+        (format!("{h}\n## seqn = 99999999999\nus|{id}|abcd\n"), None),
+        (format!("{h}\n## seqn = {id}\nus|{id}|abcd\neu|{id}"), None),
+        (format!("{h}\n## seqn = {id}\nus|99999999999999999999|abcd\n"), None),
+    ]
+}
+
+fn raw_tok(code: u16, body: &[u8], tag: Option<(u32, u32)>) -> String {
+    format!("r{code}:{}:{}", hex(body), match tag { Some((a, b)) => format!("g{a}.{b}"), None => "m".into() })
+}
+
+/// queries whose endpoints deliver raw bodies: plain on HTTP, plain or MIME-wrapped (good / bad
+/// checksum) on TCP, in every position of the chain
+fn gen_wire_groups(rng: &mut Rng, thorough: bool) -> Vec<Vec<String>> {
+    let mut groups = vec![];
+    let mut id = 50_000u32;
+    let rounds = if thorough { 12 } else { 3 };
+    for round in 0..rounds {
+        let mut g = vec![format!("begin mode={} https=1 http=1 down=0 ttl=60000,60000,60000", if round % 2 == 0 { "disk" } else { "mem" })];
+        let mut n = 0;
+        id += 1;
+        let bodies = raw_bodies(id);
+        for (bi, (text, tag)) in bodies.iter().enumerate() {
+            n += 1;
+            let ep = endpoint(EP_KINDS[(bi + round) % 3], n);
+            // position in the chain: 0 https, 1 http (https transient), 2 tcp (both transient)
+            let pos = (bi + round) % 3;
+            let tcp_body: (Vec<u8>, Option<(u32, u32)>) = match rng.below(4) {
+                0 => (wrap_mime(text, true), *tag),
+                1 => (wrap_mime(text, false), None), // checksum mismatch: malformed whatever is inside
+                _ => (text.clone().into_bytes(), *tag),
+            };
+            let good_other = |k: usize| raw_tok(200, bodies[k].0.as_bytes(), bodies[k].1);
+            let line = match pos {
+                0 => format!("q 0 0 {ep} {} {} {}", raw_tok(200, text.as_bytes(), *tag), good_other(0), good_other(1)),
+                1 => format!("q 0 0 {ep} {} {} {}", *rng.pick(&["s503", "close", "s429"]), raw_tok(200, text.as_bytes(), *tag), good_other(2)),
+                _ => format!("q 0 0 {ep} {} {} {}", *rng.pick(&["s500", "mid", "stall"]), *rng.pick(&["s502", "close"]), raw_tok(200, &tcp_body.0, tcp_body.1)),
+            };
+            g.push(line);
+            // the same endpoint again: a good answer is now served from the cache, a malformed one is not
+            if rng.chance(1, 2) {
+                g.push(format!("q 0 10 {ep} {} close close", raw_tok(404, b"gone\n", None)));
+            }
+        }
+        // a non-200 status with a perfectly good table is not an answer
+        n += 1;
+        g.push(format!("q 0 0 {} {} {} {}", endpoint("versions", n), raw_tok(404, bodies[0].0.as_bytes(), None), good_other_static(&bodies, 0), good_other_static(&bodies, 1)));
+        n += 1;
+        g.push(format!("q 0 0 {} {} {} {}", endpoint("cdns", n), raw_tok(500, bodies[0].0.as_bytes(), None), raw_tok(201, bodies[0].0.as_bytes(), None), good_other_static(&bodies, 1)));
+        // TCP-only endpoint with MIME / plain / malformed
+        for (text, tag) in bodies.iter().take(8) {
+            n += 1;
+            let (b, tg) = if rng.chance(1, 2) { (wrap_mime(text, true), *tag) } else { (text.clone().into_bytes(), *tag) };
+            g.push(format!("q 0 0 v1/summary/p{n} doc:1 doc:2 {}", raw_tok(200, &b, tg)));
+        }
+        groups.push(g);
+    }
+    groups
+}
+fn good_other_static(bodies: &[(String, Option<(u32, u32)>)], k: usize) -> String {
+    raw_tok(200, bodies[k].0.as_bytes(), bodies[k].1)
+}
+
+// ---------------------------------------------------------------------------------------------
+// CDN download groups
+// ---------------------------------------------------------------------------------------------
+fn rand_body(rng: &mut Rng) -> Vec<u8> {
+    let n = *rng.pick(&[0usize, 1, 2, 5, 17, 40]);
+    rng.bytes(n)
+}
+fn step_tok(rng: &mut Rng, kind: &str) -> String {
+    match kind {
+        "ok" => format!("s{}:{}", *rng.pick(&[200u16, 200, 200, 206, 203]), hex(&rand_body(rng))),
+        "retry" => match rng.below(5) {
+            0 => "close".to_string(),
+            1 => { let mut b = rand_body(rng); while b.len() < 2 { b.push(rng.byte()); } format!("mid:{}", hex(&b)) }
+            2 => format!("s429:{}", hex(&rand_body(rng))),
+            _ => format!("s{}:{}", *rng.pick(&[500u16, 502, 503, 504, 599]), hex(&rand_body(rng))),
+        },
+        _ => format!("s{}:{}", *rng.pick(&[404u16, 403, 400, 410, 301, 416]), hex(&rand_body(rng))),
+    }
+}
+fn rand_script(rng: &mut Rng) -> String {
+    // shapes: immediate success / k retryable then success / k retryable then definitive /
+    // only retryable (4 requests) / definitive at once / refused / one stall then success
+    match rng.below(12) {
+        0..=2 => step_tok(rng, "ok"),
+        3 | 4 => { let k = 1 + rng.below(3); let mut v: Vec<String> = (0..k).map(|_| step_tok(rng, "retry")).collect(); v.push(step_tok(rng, "ok")); v.join(",") }
+        5 => { let k = 1 + rng.below(2); let mut v: Vec<String> = (0..k).map(|_| step_tok(rng, "retry")).collect(); v.push(step_tok(rng, "fatal")); v.push(step_tok(rng, "ok")); v.join(",") }
+        6 => { let k = 1 + rng.below(4); (0..k).map(|_| step_tok(rng, "retry")).collect::<Vec<_>>().join(",") }
+        7 => { let mut v: Vec<String> = (0..4).map(|_| step_tok(rng, "retry")).collect(); v.push(step_tok(rng, "ok")); v.join(",") }
+        8 | 9 => { let a = step_tok(rng, "fatal"); let b = step_tok(rng, "ok"); format!("{a},{b}") }
+        10 => "refuse".to_string(),
+        _ => format!("stall,{}", step_tok(rng, "ok")),
+    }
+}
+
+/// long TTLs: every script shape, repeated downloads of the same object (by the same client, by
+/// another client on the directory, with a trailing slash on the path), invalid keys, corruption
+fn gen_cdn_groups(rng: &mut Rng, n: usize) -> Vec<Vec<String>> {
+    let mut groups = vec![];
+    for gi in 0..n {
+        let disk = gi % 3 != 2;
+        let mut g = vec![format!("begin mode={} https=1 http=1 down=0 ttl=60000,60000,60000", if disk { "disk" } else { "mem" })];
+        let mut clients = 1usize;
+        let mut objs: Vec<(String, &str, Vec<u8>)> = vec![];
+        let steps = 6 + rng.below(6);
+        for _ in 0..steps {
+            if clients < 2 && rng.chance(1, 5) { g.push("new".into()); clients += 1; }
+            let ci = rng.below(clients as u64) as usize;
+            let (path, ct, key) = if !objs.is_empty() && rng.chance(1, 2) {
+                let o = rng.pick(&objs).clone();
+                // the same object, sometimes spelled with trailing slashes
+                (if rng.chance(1, 3) { format!("{}/", o.0) } else { o.0 }, o.1, o.2)
+            } else {
+                let p = rng.pick(&["tpr/wow", "tpr/configs/data", "x"]).to_string();
+                let ct = *rng.pick(&["config", "data", "patch"]);
+                let klen = *rng.pick(&[2usize, 3, 16, 16, 16, 1, 0]);
+                let k = rng.bytes(klen);
+                if klen >= 2 { objs.push((p.clone(), ct, k.clone())); }
+                (p, ct, k)
+            };
+            if disk && key.len() >= 2 && rng.chance(1, 12) {
+                g.push(format!("corruptdl {} {ct} {}", path.trim_end_matches('/'), hex(&key)));
+            }
+            g.push(format!("dl {ci} 0 {path} {ct} {} {}", hex(&key), rand_script(rng)));
+            if rng.chance(1, 6) {
+                // an answer of the version service through the same client and cache in between
+                g.push(format!("q {ci} 0 v1/products/p{gi}/versions doc:{} doc:2 doc:3", 70_000 + gi));
+            }
+        }
+        groups.push(g);
+    }
+    groups
+}
+
+/// short TTLs (ribbit, cdn, config all different, in both orders of cdn/config): one client,
+/// scripts decided by their first request, downloads placed ≥ 250 ms away from every expiry
+fn gen_cdn_ttl_groups(rng: &mut Rng, n: usize) -> Vec<Vec<String>> {
+    let mut groups = vec![];
+    for gi in 0..n {
+        let disk = gi % 2 == 0;
+        let ttl: [u64; 3] = if gi % 4 < 2 { [600, 1100, 1700] } else { [600, 1700, 1100] };
+        let mut g = vec![format!("begin mode={} https=1 http=1 down=0 ttl={},{},{}", if disk { "disk" } else { "mem" }, ttl[0], ttl[1], ttl[2])];
+        let key = rng.bytes(16);
+        let ct = *rng.pick(&["config", "data", "patch"]);
+        let mut bounds: Vec<u64> = vec![];
+        let mut t = 0u64;
+        for step in 0..(4 + rng.below(3)) {
+            let mut cand = t + *rng.pick(&[0u64, 40, 300, 800, 1300, 1900]);
+            if step == 0 { cand = 0; }
+            loop {
+                let near = bounds.iter().any(|&b| cand + 250 > b && cand < b + 250);
+                if !near { break; }
+                cand += 100;
+            }
+            t = cand;
+            if t > 5000 { break; }
+            let script = if rng.chance(1, 4) { step_tok(rng, "fatal") } else { step_tok(rng, "ok") };
+            g.push(format!("dl 0 {t} tpr/wow {ct} {} {script}", hex(&key)));
+            for x in ttl { bounds.push(t + x); }
+        }
+        groups.push(g);
+    }
+    groups
+}
+
 fn compositions(total: usize, parts: usize, out: &mut Vec<Vec<usize>>, cur: &mut Vec<usize>) {
     if parts == 1 {
         cur.push(total);
@@ -1588,8 +1949,22 @@ fn emit_groups(s: &mut Session, groups: &[Vec<String>], results: &[Option<Vec<St
                     let key = format!("{} {} {} {} {} -> {resp}", g[0], toks[3].split('/').next_back().unwrap_or(""), toks[4].split(':').next().unwrap(), toks[5].split(':').next().unwrap(), toks[6].split(':').next().unwrap());
                     s.case(if nontrivial { Some(&key) } else { None });
                 }
-            } else if op == "tcp" || op == "ismime" || op == "retry" {
+            } else if op == "tcp" || op == "ismime" || op == "retry" || op == "httperr" {
                 s.case(Some(l));
+            } else if op == "dl" {
+                let toks: Vec<&str> = l.split(' ').collect();
+                let shape: Vec<&str> = toks[6].split(',').map(|t| t.split(':').next().unwrap()).collect();
+                let f: BTreeMap<&str, &str> = resp.split(' ').filter_map(|kv| kv.split_once('=')).collect();
+                if let (Some(rq), Some(res)) = (f.get("reqs"), f.get("res")) {
+                    s.tally(&format!("dl.reqs.{rq}"));
+                    let rc = if res.starts_with("ok") { "ok".to_string() } else { res.to_string() };
+                    s.tally(&format!("dl.res.{rc}"));
+                    for sh in &shape { s.tally(&format!("dl.step.{sh}")); }
+                    // non-trivial: the call passed check_key and reached the cache lookup
+                    let nontrivial = *res != "err:invalid-key";
+                    let key = format!("{} dl {} {} reqs={rq} res={rc} cache={}", g[0], toks[4], shape.join(","), f.get("cache").map_or("?", |c| c.split(':').next().unwrap()));
+                    s.case(if nontrivial { Some(&key) } else { None });
+                }
             }
         }
         let mut fails: Vec<(String, String, usize)> = vec![];
@@ -1603,6 +1978,7 @@ fn emit_groups(s: &mut Session, groups: &[Vec<String>], results: &[Option<Vec<St
                 .filter(|(k, l)| {
                     let t: Vec<&str> = l.split(' ').collect();
                     *k == upto || t[0] == "begin" || t[0] == "new" || (t[0] == "corrupt" && t.get(1) == Some(&ep.as_str())) || (t[0] == "q" && t.get(3) == Some(&ep.as_str()))
+                        || ((t[0] == "dl" || t[0] == "corruptdl") && g[upto].starts_with("dl "))
                 })
                 .map(|(_, l)| l.clone())
                 .collect();
@@ -1667,7 +2043,7 @@ fn main() {
     let args = Args::parse();
     quiet_panics();
     let mut s = Session::new(&args.out);
-    s.rule = "groups of queries against loopback mock servers (2 HTTP, 1 Ribbit TCP) with per-query behaviour assignments; non-trivial = query passed endpoint validation and reached the cache/fallback mechanism (or a tcp/ismime/retry line); distinct = configuration + endpoint class + behaviour classes + canonical response".into();
+    s.rule = "groups of queries against loopback mock servers (2 HTTP, 1 Ribbit TCP) with per-query behaviour assignments; non-trivial = query passed endpoint validation and reached the cache/fallback mechanism, download passed check_key and reached the cache lookup (or a tcp/ismime/retry/httperr line); distinct = configuration + endpoint class + behaviour classes (dl: content type + script shape + requests + result class + cache class) + canonical response".into();
     let threads = 12;
     let (mut retimed, mut dropped) = (0u64, 0u64);
 
@@ -1722,6 +2098,22 @@ fn main() {
     ]];
     let r = run_groups_parallel(bad_eps.clone(), 1, &mut retimed, &mut dropped);
     emit_groups(&mut s, &bad_eps, &r, "endpoint");
+
+    // 6. raw bodies: the parser decides what is malformed
+    let wire = gen_wire_groups(&mut rng, th);
+    let r = run_groups_parallel(wire.clone(), threads, &mut retimed, &mut dropped);
+    emit_groups(&mut s, &wire, &r, "wire");
+    // 7. reqwest error classes, one probe each
+    let probes: Vec<Vec<String>> = HTTPERR_BEH.iter().map(|b| vec![format!("httperr {b}")]).collect();
+    let r = run_groups_parallel(probes.clone(), threads, &mut retimed, &mut dropped);
+    emit_groups(&mut s, &probes, &r, "httperr");
+    // 8. CDN downloads: cache, then fetch (with retries), then store
+    let cdn = gen_cdn_groups(&mut rng, if th { 160 } else { 30 });
+    let r = run_groups_parallel(cdn.clone(), 24, &mut retimed, &mut dropped);
+    emit_groups(&mut s, &cdn, &r, "cdn");
+    let cdn_ttl = gen_cdn_ttl_groups(&mut rng, if th { 120 } else { 24 });
+    let r = run_groups_parallel(cdn_ttl.clone(), 24, &mut retimed, &mut dropped);
+    emit_groups(&mut s, &cdn_ttl, &r, "cdn-ttl");
 
     s.extra.insert("groups_rerun_for_timing".into(), serde_json::json!(retimed));
     s.extra.insert("groups_dropped_for_timing".into(), serde_json::json!(dropped));
